@@ -228,7 +228,7 @@ pub fn run(ctx: &mut Ctx) {
         state_sweep(ctx, cfg, l);
         payload_function_sweeps(ctx, cfg);
     }
-    let n = ctx.tier.pick(15_000, 700_000);
+    let n = ctx.tier.pick(40_000, 700_000);
     for cfg in configs() {
         // (1) raw bytes
         let raw_line = prop_oneof![
